@@ -7,7 +7,7 @@ from graphql.type import get_named_type, is_leaf_type, is_list_type, is_non_null
 EXC_KINDS = (
     "RuntimeError", "ValueError", "KeyError", "EmptyStr", "GraphQLError",
     "GraphQLErrorOwnPath", "TypeError", "MemoryError", "RecursionError",
-    "StopIteration", "TimeoutError", "LookupError",
+    "StopIteration", "TimeoutError", "LookupError", "SharedGraphQLError",
 )
 
 
@@ -128,8 +128,10 @@ class Planner:
 
     def _msg(self, exc=None):
         self.nfault += 1
-        if exc is not None and EXC_KINDS[exc] == "EmptyStr":
-            return None  # str(exc) is empty: attributable by position only
+        if exc is not None and EXC_KINDS[exc] in ("EmptyStr", "SharedGraphQLError"):
+            # str(exc) is empty / one exception *instance* raised at every such position of
+            # the scenario (a module-level NOT_FOUND): attributable by position only
+            return None
         return f"F{self.nfault}"
 
     def _count(self, kind):
